@@ -162,17 +162,31 @@ impl StorageEngine {
     /// Calculate shard index for a key using deterministic hash function
     /// This ensures the same key always maps to the same shard for consistent modification tracking
     fn get_shard_index(&self, key: &[u8]) -> usize {
+        (Self::element_hash(key) % SHARDS_PER_DATABASE as u64) as usize
+    }
+    
+    /// Hash of a key (shard selection) or of a key/field/member (iteration order of the SCAN family)
+    fn element_hash(element: &[u8]) -> u64 {
         // Use deterministic FNV-1a hash instead of random DefaultHasher
         const FNV_OFFSET: u64 = 0xcbf29ce484222325;
         const FNV_PRIME: u64 = 0x100000001b3;
         
         let mut hash = FNV_OFFSET;
-        for &byte in key {
+        for &byte in element {
             hash ^= byte as u64;
             hash = hash.wrapping_mul(FNV_PRIME);
         }
         
-        (hash % SHARDS_PER_DATABASE as u64) as usize
+        hash
+    }
+    
+    /// Whether a SCAN page goes on with the element at `pos` (elements ordered by `hashes`).
+    /// The cursor is the hash of the first element of the next page ("resume at hash >= cursor"),
+    /// which keeps its meaning when elements are added or deleted between two calls - an index
+    /// into the list does not. A hash cannot point inside a run of equal hashes, so a full page
+    /// still takes the rest of such a run.
+    fn scan_page_continues(hashes: &[u64], pos: usize, has_room: bool) -> bool {
+        pos < hashes.len() && (has_room || (pos > 0 && hashes[pos] == hashes[pos - 1]))
     }
     
     /// Get shard for a key in a specific database
@@ -2296,9 +2310,10 @@ impl StorageEngine {
             }
         }
         
-        all_keys.sort();
+        all_keys.sort_by_cached_key(|key| Self::element_hash(key));
+        let hashes: Vec<u64> = all_keys.iter().map(|key| Self::element_hash(key)).collect();
         
-        let start_pos = if cursor == 0 { 0 } else { cursor as usize };
+        let start_pos = hashes.partition_point(|&hash| hash < cursor);
         if start_pos >= all_keys.len() && !all_keys.is_empty() {
             return Ok((0, Vec::new()));
         }
@@ -2309,7 +2324,7 @@ impl StorageEngine {
         
         let pattern_str = pattern.map(|p| String::from_utf8_lossy(p));
         
-        while keys_examined < max_scan_count * 10 && matching_keys.len() < max_scan_count {
+        while Self::scan_page_continues(&hashes, current_pos, keys_examined < max_scan_count * 10 && matching_keys.len() < max_scan_count) {
             if current_pos >= all_keys.len() {
                 break;
             }
@@ -2335,7 +2350,7 @@ impl StorageEngine {
         let next_cursor = if current_pos >= all_keys.len() {
             0
         } else {
-            current_pos as u64
+            hashes[current_pos]
         };
         
         Ok((next_cursor, matching_keys))
@@ -2359,9 +2374,10 @@ impl StorageEngine {
                 }
                 
                 let mut fields: Vec<Vec<u8>> = hash.keys().cloned().collect();
-                fields.sort();
+                fields.sort_by_cached_key(|field| Self::element_hash(field));
+                let hashes: Vec<u64> = fields.iter().map(|field| Self::element_hash(field)).collect();
                 
-                let start_pos = if cursor == 0 { 0 } else { cursor as usize };
+                let start_pos = hashes.partition_point(|&hash| hash < cursor);
                 if start_pos >= fields.len() && !fields.is_empty() {
                     return Ok((0, Vec::new()));
                 }
@@ -2371,7 +2387,7 @@ impl StorageEngine {
                 let mut current_pos = start_pos;
                 let pattern_str = pattern.map(|p| String::from_utf8_lossy(p));
                 
-                while fields_examined < max_scan_count * 10 && (result.len() / if no_values { 1 } else { 2 }) < max_scan_count {
+                while Self::scan_page_continues(&hashes, current_pos, fields_examined < max_scan_count * 10 && (result.len() / if no_values { 1 } else { 2 }) < max_scan_count) {
                     if current_pos >= fields.len() {
                         break;
                     }
@@ -2401,7 +2417,7 @@ impl StorageEngine {
                 let next_cursor = if current_pos >= fields.len() {
                     0
                 } else {
-                    current_pos as u64
+                    hashes[current_pos]
                 };
                 
                 Ok((next_cursor, result))
@@ -2426,9 +2442,10 @@ impl StorageEngine {
                 }
                 
                 let mut members: Vec<Vec<u8>> = set.iter().cloned().collect();
-                members.sort();
+                members.sort_by_cached_key(|member| Self::element_hash(member));
+                let hashes: Vec<u64> = members.iter().map(|member| Self::element_hash(member)).collect();
                 
-                let start_pos = if cursor == 0 { 0 } else { cursor as usize };
+                let start_pos = hashes.partition_point(|&hash| hash < cursor);
                 if start_pos >= members.len() && !members.is_empty() {
                     return Ok((0, Vec::new()));
                 }
@@ -2438,7 +2455,7 @@ impl StorageEngine {
                 let mut current_pos = start_pos;
                 let pattern_str = pattern.map(|p| String::from_utf8_lossy(p));
                 
-                while members_examined < max_scan_count * 10 && result.len() < max_scan_count {
+                while Self::scan_page_continues(&hashes, current_pos, members_examined < max_scan_count * 10 && result.len() < max_scan_count) {
                     if current_pos >= members.len() {
                         break;
                     }
@@ -2464,7 +2481,7 @@ impl StorageEngine {
                 let next_cursor = if current_pos >= members.len() {
                     0
                 } else {
-                    current_pos as u64
+                    hashes[current_pos]
                 };
                 
                 Ok((next_cursor, result))
@@ -2496,7 +2513,10 @@ impl StorageEngine {
                     return Ok((0, items));
                 }
                 
-                let start_pos = if cursor == 0 { 0 } else { cursor as usize };
+                items.sort_by_cached_key(|item| Self::element_hash(&item.0));
+                let hashes: Vec<u64> = items.iter().map(|item| Self::element_hash(&item.0)).collect();
+                
+                let start_pos = hashes.partition_point(|&hash| hash < cursor);
                 if start_pos >= items.len() && !items.is_empty() {
                     return Ok((0, Vec::new()));
                 }
@@ -2506,7 +2526,7 @@ impl StorageEngine {
                 let mut current_pos = start_pos;
                 let pattern_str = pattern.map(|p| String::from_utf8_lossy(p));
                 
-                while items_examined < max_scan_count * 10 && result.len() < max_scan_count {
+                while Self::scan_page_continues(&hashes, current_pos, items_examined < max_scan_count * 10 && result.len() < max_scan_count) {
                     if current_pos >= items.len() {
                         break;
                     }
@@ -2532,7 +2552,7 @@ impl StorageEngine {
                 let next_cursor = if current_pos >= items.len() {
                     0
                 } else {
-                    current_pos as u64
+                    hashes[current_pos]
                 };
                 
                 Ok((next_cursor, result))
